@@ -291,7 +291,7 @@ class C14(Property):
     families = ["write"]
     rule = ("frameworks reached by random update histories (removed arguments and attacks, re-added labels) over valid Aspartix identifiers (incl. Unicode digits), "
             "written by AspartixWriter and read back by AspartixReader; extensions (incl. empty) written by both response writers; status and no-extension lines; "
-            "all bytes compared with the Lean writer model; non-trivial = history with a removal")
+            "all bytes compared with the Lean writer model; plus frameworks of 300-4000 arguments with extensions of half to all of them (tens of kilobytes per line, beyond any buffer size); non-trivial = history with a removal")
     assumptions = ["labels restricted to valid Aspartix identifiers as in the property"]
 
     def cases(self, tier, rng):
@@ -303,6 +303,22 @@ class C14(Property):
             ops = rand_history(rng, rng.randint(3, 40), universe)
             names = names_for(rng, universe) if rng.random() < 0.8 else []
             ext = rng.sample(universe, rng.randint(0, u))
+            lines.append("write x ops=%s names=%s ext=%s" % (";".join(ops), ",".join("%d:%s" % (l, hx(x.encode())) for l, x in names), ",".join(map(str, ext)) or "-"))
+        # large frameworks and extensions: thousands of labels, output far beyond any internal buffer size
+        for _ in range(6 if tier == "quick" else 40):
+            u = rng.choice([300, 700, 1500, 2500, 4000])
+            universe = list(range(1, u + 1))
+            ops = ["A%d" % l for l in universe]
+            for _ in range(rng.randint(0, 200)):
+                a, b = rng.choice(universe), rng.choice(universe)
+                ops.append("+%d>%d" % (a, b))
+            for _ in range(rng.randint(0, 30)):
+                ops.append("R%d" % rng.choice(universe))
+            pre = rng.choice(["a", "arg_", "x_", "Arg", "some_longer_prefix_"])
+            names = [(l, "%s%d" % (pre, l)) for l in universe] if rng.random() < 0.8 else []
+            removed = set(int(o[1:]) for o in ops if o.startswith("R"))
+            live = [l for l in universe if l not in removed]
+            ext = sorted(rng.sample(live, rng.randint(len(live) // 2, len(live))))
             lines.append("write x ops=%s names=%s ext=%s" % (";".join(ops), ",".join("%d:%s" % (l, hx(x.encode())) for l, x in names), ",".join(map(str, ext)) or "-"))
         return lines
 
@@ -342,12 +358,12 @@ class C14(Property):
                 txt = bytes.fromhex(ws[0].split(" ")[2]).decode()
                 labs = [bytes.fromhex(h).decode() for h in xd["labels"].split(",") if h]
                 if not (txt.startswith("[") and txt.endswith("]\n")) or [t for t in txt[1:-2].split(",") if t] != labs:
-                    fs.append(Finding("input", case_line, "Aspartix extension line does not read back to its labels: %r" % txt, "write · aspartix extension"))
+                    fs.append(Finding("input", case_line, "Aspartix extension line does not read back to its labels: %r" % (txt[:160] + ("…" if len(txt) > 160 else "")), "write · aspartix extension"))
             if wi:
                 txt = bytes.fromhex(wi[0].split(" ")[2]).decode()
                 labs = [h for h in xd["ulabels"].split(",") if h]
                 if not (txt.startswith("w") and txt.endswith("\n")) or txt[1:].split() != labs:
-                    fs.append(Finding("input", case_line, "ICCMA extension line does not read back to its labels: %r" % txt, "write · iccma extension"))
+                    fs.append(Finding("input", case_line, "ICCMA extension line does not read back to its labels: %r" % (txt[:160] + ("…" if len(txt) > 160 else "")), "write · iccma extension"))
         if fs:
             return fs
         v = [l for l in model if l.startswith("verdict ")]
